@@ -13,6 +13,11 @@ pub struct EFIMemoryDesc {
     pub att: u64,
 }
 global layout EFIMemoryDesc is size == 40, align == 8;
+/// stand-ins for the other uefi-raw types re-exported next to it (size/alignment only)
+pub struct EFIMemoryAreaType(pub u32);
+global layout EFIMemoryAreaType is size == 4, align == 4;
+pub struct EFIMemoryAttribute(pub u64);
+global layout EFIMemoryAttribute is size == 8, align == 8;
 
 /// trusted layout of `#[repr(C)] struct EFIMemoryMapTag { header, desc_size: u32, desc_version: u32, memory_map: [u8] }`
 /// (tail at offset 16, length = pointer metadata); checked by engine K on the compiled type
